@@ -69,6 +69,7 @@ PURE_NAMES = sorted(["get_sequence", "get_length", "len", "str", "get_FCR", "get
                      "get_fraction_disorder_promoting", "get_uversky_hydropathy", "get_WW_hydropathy", "get_mean_net_charge",
                      "get_fraction_expanding", "get_Omega_sequence", "get_linear_FCR"])
 PHOSPHO_NAMES = ["get_phosphosites", "get_phosphosequence"]
+PERM_FLAGS = ["True", "1", "np.bool_", "str", "np.int64"]
 DERIVED_NAMES = ["get_Omega", "get_kappa_X1", "get_kappa_X2", "get_full_phosphostatus_kappa_distribution"]
 
 
@@ -92,7 +93,10 @@ def one_call(o, kind, name=None):
     if kind == "deltaMax":
         return dcall(o.get_deltaMax)
     if kind == "deltaMaxPerm":
-        return dcall(o.get_deltaMax, True)
+        # any truthy flag asks for the permutant
+        import numpy as np
+        flag = {None: True, "True": True, "1": 1, "np.bool_": np.bool_(True), "str": "yes", "np.int64": np.int64(1)}[name]
+        return dcall(o.get_deltaMax, flag)
     if kind == "kappa":
         return dcall(o.get_kappa)
     if kind == "composition-default":
